@@ -51,11 +51,38 @@ def small_programs(spec):
             yield q, "viol:" + o["id"]
 
 
+def extra_variants(spec):
+    """violating families outside the C02 catalogue that change how later text is scoped: a type defined in
+    a .c file after a function, with its brace on the keyword line or on its own line"""
+    from nv.gen.ir import TAB
+    r = random.Random("c19x/%s/%d" % (spec["seed"], spec["shard"]))
+    for k in range(max(2, spec["n"] // 4)):
+        g = conf.Gen("c19extra/%s/%d/%d" % (spec["seed"], spec["shard"], k))
+        p = g.c_file("test.c", nfuncs=r.choice([2, 3, 4]), header=False)
+        closes = [i for i, l in enumerate(p.lines) if l.kind == "fclose"][:-1]
+        if not closes:
+            continue
+        i = r.choice(closes)
+        kw = r.choice(["struct", "union", "enum"])
+        tag = {"struct": "s_zz", "union": "u_zz", "enum": "e_zz"}[kw]
+        member = [Line("td_member", [IND(1), ("int", "type"), TAB(1), ("a", "id:member"), (";", "punct")], 1)] if kw != "enum" \
+            else [Line("td_enum_member", [IND(1), ("ZZ", "id:enumconst")], 1)]
+        if r.random() < 0.6:
+            head = [Line("td_head", [(kw, "kw"), SP, (tag, "id:tag"), SP, ("{", "punct")])]
+        else:
+            head = [Line("td_head", [(kw, "kw"), SP, (tag, "id:tag")]), Line("td_open", [("{", "punct")])]
+        q = p.copy()
+        q.lines[i + 1:i + 1] = [Line("blank", [])] + head + member + [Line("td_close", [("}", "punct"), (";", "punct")])]
+        q.meta["op"] = "X-type-after-function"
+        yield q, "viol:Xtype"
+
+
 def run_shard(spec):
     sh = Shard(max_per_sig=3)
     r = random.Random("c19/%s/%d" % (spec["seed"], spec["shard"]))
     import itertools
-    for p, tag in itertools.chain(relwork.corpus(spec, header=False, nvar=4), small_programs(spec)):
+    for p, tag in itertools.chain(relwork.corpus(spec, header=False, nvar=4, force=("V71a",)), small_programs(spec),
+                                  extra_variants(spec)):
         base, rb = relwork.obs_of(p.name, p.text())
         if base[0] != "ok":
             sh.count("c19.base_not_a_verdict")
